@@ -106,10 +106,10 @@ Theorem emu_history_bytes_correct tw measure seg fs s r t e w h :
   v_caps s = term_caps -> settled s r -> (v_refresh s = false -> in_sync measure term_caps s r) ->
   size_ok (tm_rows r) (tm_cols r) ->
   TP.WFs0 e w h t -> vaxis_modes t = true -> emu_rel t r ->
-  emu_history_bytes (fun t => resize_pen_ok t = true) tw measure seg s (tm_rows r) (tm_cols r) t fs.
+  emu_history_bytes (fun _ => True) tw measure seg s (tm_rows r) (tm_cols r) t fs.
 Proof.
   intros. apply hist_gen_bytes.
-  apply (hist_gen_correct (fun t => resize_pen_ok t = true) (fun _ => True)) with (e := e) (w := w) (h := h); auto.
+  apply (hist_gen_correct (fun _ => True) (fun _ => True)) with (e := e) (w := w) (h := h); auto.
   - exact inv_resize_pen.
   - apply bytes_feed_ok.
 Qed.
@@ -135,11 +135,11 @@ Qed.
 Theorem app_in_term_bytes_any tw measure seg rows cols t0 e fs :
   1 <= rows -> 1 <= cols -> size_ok rows cols ->
   TP.WFs0 e cols rows t0 -> vaxis_modes t0 = true -> start_ok t0 = true ->
-  emu_history_bytes (fun t => resize_pen_ok t = true) tw measure seg (vinit term_caps rows cols) rows cols t0 fs.
+  emu_history_bytes (fun _ => True) tw measure seg (vinit term_caps rows cols) rows cols t0 fs.
 Proof.
   intros Hr Hc Hsz W M S.
   destruct (start_rel e cols rows t0 W S) as (R & Q1 & Q2 & Q3 & Q4 & Q5 & Q6).
-  assert (H : emu_history_bytes (fun t => resize_pen_ok t = true) tw measure seg (vinit term_caps rows cols)
+  assert (H : emu_history_bytes (fun _ => True) tw measure seg (vinit term_caps rows cols)
                 (tm_rows (ref_start t0)) (tm_cols (ref_start t0)) t0 fs).
   { apply (emu_history_bytes_correct tw measure seg fs _ (ref_start t0) t0 e cols rows); auto.
     - now apply vinit_settled.
